@@ -4,6 +4,9 @@ OBLIGATIONS = [
   Ob('C10.params_rt', H, 'h_qparams_rt', tier='quick', unwind=6, defines={'NCOMP': 3}, max_alloc=64,
      bound='q symbolic 1..30, 3 min values and range: any float32 bit pattern (incl. NaN/Inf)',
      covers='AttributeQuantizationTransform::SetParameters/CopyToAttributeTransformData/InitFromAttribute, AttributeTransform::TransferToAttribute, AttributeTransformData::Append/GetParameterValue, DataBuffer'),
+  Ob('C10.params_reuse', H, 'h_qparams_reuse', tier='quick', unwind=6, defines={'NCOMP': 2}, max_alloc=64,
+     bound='transform object with ANY earlier parameters of 1..3 components, then q symbolic 1..30, 2 min values and range: any float32 bit pattern',
+     covers='AttributeQuantizationTransform::SetParameters on a used object, CopyToAttributeTransformData, InitFromAttribute'),
   Ob('C10.octparams_rt', H, 'h_octparams_rt', tier='quick', unwind=6, max_alloc=64,
      bound='q symbolic 2..30', covers='AttributeOctahedronTransform::SetParameters/CopyToAttributeTransformData/InitFromAttribute'),
   Ob('C10.inverse_eq', H, 'h_inverse_eq', tier='quick', unwind=6, uf_float=True, defines={'NCOMP': 2}, max_alloc=64,
